@@ -18,6 +18,7 @@ from ..core import Ctx, Rule
 from ..dataflow import guards_of, parent_map
 from ..facts import ShapeError, call_name, calls_in, dotted, kwarg, norm, param_names, walk_no_nested
 from ..tables import Inst, Opaque, decide, select_case
+from .boundary_rules import container_arms
 
 BYTE = 'fpy2/interpret/byte.py'
 VALUE = 'fpy2/interpret/value.py'
@@ -277,11 +278,7 @@ def p1_boundary(ctx: Ctx):
     m = [s for s in tv.body if isinstance(s, ast.Match)]
     if len(m) != 1:
         raise ShapeError('to_value is not a single match')
-    c = select_case(repo, VALUE, m[0], Inst('list'))
-    ctx.check(c is not None and norm(c.body[0]) == 'return [to_value(x) for x in arg]', VALUE, c.pattern if c else tv, 'to_value', 'a list argument is rebuilt element by element (never shared with the caller)',
-              f'got {norm(c.body[0]) if c else None}')
-    c = select_case(repo, VALUE, m[0], Inst('tuple'))
-    ctx.check(c is not None and norm(c.body[0]) == 'return tuple((to_value(x) for x in arg))', VALUE, c.pattern if c else tv, 'to_value', 'a tuple argument is rebuilt', f'got {norm(c.body[0]) if c else None}')
+    container_arms(ctx)
     fv = ctx.fn(VALUE, 'from_value')
     r = decide(repo, VALUE, fv.body, {'isinstance(x, list | tuple)': True})
     ctx.check(r[0] == 'return' and isinstance(r[1], Opaque) and norm(r[1].node) == '_cvt_boundary(x)', VALUE, r[2] or fv, 'from_value', 'a returned container is always rebuilt', f'got {r[1]!r}: the caller can receive a list the interpreter keeps')
@@ -403,6 +400,12 @@ MUTANTS = [
     Mutant('round-flags-operand', 'fpy2/number/context/mp_float.py', "        xr = x.round(self.pmax, n, self.rm, self.num_randbits, rng=self.rng, exact=exact)", "        xr = x.round(self.pmax, n, self.rm, self.num_randbits, rng=self.rng, exact=exact)\n        x._flags._set_inexact(xr.inexact)", 'C18.E2'),
     Mutant('sum-accumulates-in-place', BYTE, "        accum = val[0]\n        for x in val[1:]:", "        accum = val[0]\n        val[0] = accum\n        for x in val[1:]:", 'C18.E2'),
     Mutant('args-not-copied', VALUE, "        case list():\n            return [to_value(x) for x in arg]", "        case list():\n            return arg", 'C18.P1'),
+    Mutant('tuple-of-values-handed-through', VALUE, "        case tuple():\n            return tuple(to_value(x) for x in arg)",
+           "        case tuple() if all(isinstance(v, Float | list) for v in arg):\n            return arg\n        case tuple():\n            return tuple(to_value(x) for x in arg)", 'C18.P1',
+           'seeded change C18c: a guarded fast path for tuples'),
+    Mutant('list-shallow-copy', VALUE, "            return [to_value(x) for x in arg]", "            return list(arg)", 'C18.P1'),
+    Mutant('tuple-rebuilt-as-list-comprehension', VALUE, "            return tuple(to_value(x) for x in arg)", "            return tuple([to_value(v) for v in arg])", 'C18.P1',
+           'same table, another spelling', expect='silent'),
     Mutant('result-shared', VALUE, "    if isinstance(x, list | tuple):\n        # always a fresh container: the value may be one the interpreter keeps\n        # (a captured list in a cached namespace), and the caller is free to\n        # mutate what it is handed\n        return _cvt_boundary(x)\n", "", 'C18.P1',
            'the defect repaired by the fix: commit'),
     Mutant('captured-list-kept', BYTE, "            if isinstance(fn.__globals__.get(name), list | tuple):\n                fn.__globals__[name] = to_value(func.env[name])", "            pass", 'C18.G1', 'the defect repaired by the fix: commit'),
